@@ -315,13 +315,11 @@ func runC14(c *Ctx) {
 				lit = a
 			}
 			okWait := false
-			var sel *ssa.Select
 			for _, in := range allInstrs(run) {
-				if s, ok := in.(*ssa.Select); ok && s.Blocking {
-					sel = s
+				sel, isSel := in.(*ssa.Select)
+				if !isSel || !sel.Blocking || lit == nil {
+					continue
 				}
-			}
-			if sel != nil && lit != nil {
 				for i, st := range sel.States {
 					if st.Dir == types.RecvOnly && ex(st.Chan) == strings.TrimPrefix(ex(lit), "&")+".done" {
 						cb := selectCaseBlock(sel, i)
@@ -341,14 +339,31 @@ func runC14(c *Ctx) {
 				lf := litFields(lit)
 				p := ex(pvs[0].(*ssa.Call))
 				okL := exOrNil(lf["node"]) == "recv.node" && exOrNil(lf["endpoint"]) == "recv.endpoint" && exOrNil(lf["label"]) == p+"#0" && exOrNil(lf["rwc"]) == p+"#1"
-				nc := callsNamed(run, "(gomavlib.Node).newChannel")
-				okL = okL && len(nc) == 1 && ex(nc[0].Common().Args[1]) == ex(lit)
+				nReg := 0
+				for _, nc := range callsNamed(run, "(gomavlib.Node).newChannel") {
+					if ex(nc.Common().Args[1]) == ex(lit) {
+						nReg++
+					}
+				}
+				for _, in := range allInstrs(run) {
+					// newChannel in line: the hand-over select to the node loop
+					if sel, isSel := in.(*ssa.Select); isSel && sel.Blocking {
+						for _, st := range sel.States {
+							if st.Dir == types.SendOnly && strings.HasSuffix(ex(st.Chan), ".chNewChannel") && ex(st.Send) == ex(lit) {
+								nReg++
+							}
+						}
+					}
+				}
+				okL = okL && nReg == 1
 				r.Check(okL, "R14.4", "channelProvider.run channel construction", c.Pos(lit.Pos()), "Channel{node, endpoint, label, rwc from provide()} registered with newChannel", "the channel is not built from what provide() returned / not registered with the node")
 			}
 			// error handling: only errTerminated breaks
 			okErr := false
 			for _, iff := range ifsIn(run) {
-				if _, _, _, hit := succWhenFunc(iff, func(cs string) bool { return strings.HasPrefix(cs, "errors.Is(") && strings.HasSuffix(cs, ",gomavlib.errTerminated)") }); hit {
+				if _, _, _, hit := succWhenFunc(iff, func(cs string) bool {
+					return strings.HasPrefix(cs, "errors.Is(") && strings.HasSuffix(cs, ",gomavlib.errTerminated)")
+				}); hit {
 					okErr = true
 				}
 			}
